@@ -2,6 +2,7 @@
 import json
 
 import codec
+import re
 import edgepkg
 import genrun
 import ymodel
@@ -49,6 +50,30 @@ def flows_for(gp, pname, stream, batches, cpp=True):
     return flows
 
 
+FALLBACK_BODY = ("size_t i = 0; while (true) { if (i == values.size()) { values.resize(i + 1); } if (!%s(values[i])) { values.resize(i); "
+                 "return false; } i++; if (i == values.capacity()) { return true; } }")
+
+
+def fallback_text_tie(ctx, gp):
+    """translator-level tie of Model.Fallback: the fallback batch read that yardl wrote into protocols.cc for every stream step
+    is, statement by statement, the loop the model transcribes (theorems C17_cpp_fallback_batch / _any_capacity)"""
+    import os
+    src = open(os.path.join(gp.dir, "cpp", "generated", "protocols.cc")).read()
+    found = 0
+    for m in re.finditer(r"// fallback implementation\nbool (\w+)::(Read\w+Impl)\(std::vector<[^\n]*>& values\) \{\n(.*?)\n\}\n", src, re.S):
+        found += 1
+        body = " ".join(m.group(3).split())
+        ctx.count("fallback_text", "as modelled" if body == FALLBACK_BODY % m.group(2) else "different")
+        if body != FALLBACK_BODY % m.group(2):
+            ctx.report("fallback-text-differs", "the fallback batch read %s::%s in the generated protocols.cc is not the loop Model.Fallback "
+                       "transcribes (theorems C17_cpp_fallback_batch / C17_cpp_fallback_any_capacity are no longer about the code)"
+                       % (m.group(1), m.group(2)), {"generated": m.group(3), "modelled": FALLBACK_BODY % m.group(2),
+                                                    "broken": "correspondence Model.Fallback.fb vs protocols.go (fallback implementation)"}, no_input=True)
+    if not found:
+        ctx.report("fallback-text-differs", "no fallback batch read was found in the generated protocols.cc",
+                   {"broken": "correspondence Model.Fallback.fb vs protocols.go (fallback implementation)"}, no_input=True)
+
+
 def crafted_items(rng):
     """consecutive items that differ in map keys, optional presence, vector length, union case"""
     S = lambda s: ("str", list(s.encode()))
@@ -93,6 +118,7 @@ def run(ctx):
     if not edge_cpp:
         ctx.report("cpp-compile:edge", "generated C++ does not compile for the Edge package",
                    {"model": pkg.yaml(), "error": edge.cpp_err[-2000:]})
+    fallback_text_tie(ctx, edge)
     edge.py_start()
     pkgs = codec.build_packages(ctx, 2 if quick else 8, "g", cpp=True, ndjson=False)
     try:
